@@ -92,9 +92,9 @@ FORMS = (
     "macro", "macroarg", "macrotail",
 )  # fmt: skip
 MACRO_FORMS = ("macro", "macroarg", "macrotail")
-ALL_FORMS = FORMS + ("envplain", "envbrace", "envat", "envdq", "envdqmid", "envdq2", "envsq", "envf", "envgluesuf", "envgluepre", "litraw", "litat")
+ALL_FORMS = FORMS + ("mltsq", "mltdq", "mlftsq", "mlrtdq") + ("envplain", "envbrace", "envat", "envdq", "envdqmid", "envdq2", "envsq", "envf", "envgluesuf", "envgluepre", "litraw", "litat")
 # sub-forms that are one syntactic form of the statement share the <form> part of the key
-FAMILY = {"envdqmid": "envdq", "envdq2": "envdq", "envgluesuf": "envglue", "envgluepre": "envglue", "gluepre": "glue", "gluesuf": "glue", "glueboth": "glue", "gluelist": "glue", "macroarg": "macro", "macrotail": "macro", "tsq": "triple", "tdq": "triple", "ffield": "f", "fval": "f"}
+FAMILY = {"mltsq": "mltriple", "mltdq": "mltriple", "envdqmid": "envdq", "envdq2": "envdq", "envgluesuf": "envglue", "envgluepre": "envglue", "gluepre": "glue", "gluesuf": "glue", "glueboth": "glue", "gluelist": "glue", "macroarg": "macro", "macrotail": "macro", "tsq": "triple", "tdq": "triple", "ffield": "f", "fval": "f"}
 # second members of a form family: in the quick tier only for length<=1 values and the probes
 QUICK_TINY_ONLY = ("tdq", "atgen", "glueboth", "macrotail")
 VERBATIM_FORMS = ("raw", "at", "atlist", "macro")
@@ -151,6 +151,58 @@ KW_POSITIONS = ("mid", "first", "last") + CHAINPOS
 KW_FORMS_QUICK = ("plain", "sq", "dq", "raw", "f", "tsq", "at", "atlist", "gluepre", "gluesuf", "macro", "macroarg")
 
 
+# ---------------------------------------------------------------- part D: multi-line literals
+# A value of this part is an ML tuple of LINE tokens; the literal is written over that many physical
+# lines inside triple quotes.  The line kinds collide with what the source pre-processing looks at
+# (backslash continuations, comment lines, triple quotes): an ordinary line, a line ENDING in a
+# backslash (inside a non-raw string: a continuation, the two lines are one), a line STARTING with
+# `#`, an empty line, a line containing the OTHER triple quote, a `#` line ending in a backslash.
+ML_LINES = {"P": "ab", "B": "cd \\", "H": "# ef", "E": "", "Q": None, "HB": "# gh \\"}
+ML_LCLASS = {"P": "plain", "B": "endbs", "H": "hashline", "E": "blank", "Q": "otherquote", "HB": "hashendbs"}
+ML_TOK = tuple(ML_LINES)
+ML_FORMS = {"mltsq": ("", "'''"), "mltdq": ("", '"""'), "mlftsq": ("f", "'''"), "mlrtdq": ("r", '"""')}
+# layouts: ordinary middle / first / last argument; the command continued after the literal with a
+# backslash-newline ("cont"), and with a comment-only line inside that continuation ("contc":
+# transparent, as the docstring of tools.strip_continuation_comments documents)
+ML_POSITIONS = ("mid", "cont", "contc", "first", "last")
+
+
+class ML(tuple):
+    """A part-D value: tuple of ML_TOK line tokens."""
+
+    __slots__ = ()
+
+
+def ml_literal(form, v):
+    """(source literal, its Python value) or None when these lines are no literal of that form."""
+    import warnings
+
+    prefix, q = ML_FORMS[form]
+    other = '"""' if q == "'''" else "'''"
+    if prefix == "r" and ("B" in v or "HB" in v):
+        return None  # backslash-newline inside a raw literal: the known finding raw:...:backslash+newline
+    lines = ["x " + other + " y" if t == "Q" else ML_LINES[t] for t in v]
+    lit = prefix + q + "\n".join(lines) + q
+    try:
+        with warnings.catch_warnings():
+            warnings.simplefilter("ignore")
+            val = eval(lit, {})  # noqa: S307 - our own literal; Python defines the value
+    except SyntaxError:
+        return None  # e.g. the last line ends in a backslash: the closing quote is escaped
+    return lit, val
+
+
+def enumerate_ml_values(maxlines):
+    """Every sequence of 1..maxlines line kinds; below 4 lines the quick tier still gets the 4-line
+    literals whose two inner lines are arbitrary between plain first and last lines."""
+    vals = []
+    for n in range(1, maxlines + 1):
+        vals.extend(ML(t) for t in itertools.product(ML_TOK, repeat=n))
+    if maxlines < 4:
+        vals.extend(ML(("P", b, c, "P")) for b in ML_TOK for c in ML_TOK)
+    return vals
+
+
 class KW(tuple):
     """A part-C value: tuple of KTOK tokens (a tuple subclass so that it is told from part B)."""
 
@@ -192,6 +244,8 @@ def char_class(ch):
 
 
 def classes_of(v):
+    if isinstance(v, ML):
+        return "+".join(ML_LCLASS[t] for t in v) if v else "empty"
     if isinstance(v, KW):  # part C: keyword tokens by name, decorations by character class
         return "+".join("kw_" + t if t in KEYWORDS else char_class(t) for t in v) if v else "empty"
     if isinstance(v, tuple):  # part B: a tuple of VTOKENS
@@ -209,6 +263,8 @@ def _subsequences(s):
 
 
 def _order_key(v):
+    if isinstance(v, ML):
+        return (len(v), [ML_TOK.index(t) for t in v])
     if isinstance(v, KW):
         return (len(v), [KTOK.index(t) for t in v])
     if isinstance(v, tuple):
@@ -330,7 +386,7 @@ def render_arg(form, v, pos="mid"):
 
 def field_value(form, v):
     """Value bound to the Python name `x` for the f-string forms."""
-    if form in ENV_FORMS:
+    if form in ENV_FORMS or form in ML_FORMS:
         return None
     if form == "ffield":
         return "-"
@@ -354,6 +410,18 @@ def _balanced(v):
 
 def render_line(form, pos, v, cmd):
     """(source line, python-self-check literal or None) or None if the combination is skipped."""
+    if form in ML_FORMS:
+        lv = ml_literal(form, v) if v else None
+        if lv is None:
+            return None
+        a = lv[0]
+        return {
+            "mid": f"{cmd} L {a} R\n",
+            "first": f"{cmd} {a} M R\n",
+            "last": f"{cmd} L M {a}\n",
+            "cont": f"{cmd} L {a} \\\nR\n",
+            "contc": f"{cmd} L {a} \\\n# comment\nR\n",
+        }[pos]
     if form in ENV_FORMS:
         if pos != "mid" or not v:
             return None
@@ -405,7 +473,7 @@ def render_line(form, pos, v, cmd):
 def self_check(form, v):
     """The generated literal must denote `v` in plain Python (the quoting function is part of the
     harness, so a mistake there is a tool error, never a finding)."""
-    if form == "plain" or form in ENV_FORMS or form.startswith(("at", "glue", "macro")):
+    if form == "plain" or form in ENV_FORMS or form in ML_FORMS or form.startswith(("at", "glue", "macro")):
         return
     a = render_arg(form, v)
     if a is None:
@@ -550,6 +618,14 @@ def expected_args(form, v, expand_env, env, home):
 
 
 def expected_argv(form, pos, v, expand_env, env, home):
+    if form in ML_FORMS:
+        val = ml_literal(form, v)[1]
+        arg = {val} if ML_FORMS[form][0] == "r" else ref_expand(val, expand_env, env, home)
+        if pos == "first":
+            return [arg, {"M"}, {"R"}]
+        if pos == "last":
+            return [{"L"}, {"M"}, arg]
+        return [{"L"}, arg, {"R"}]
     if form in ENV_FORMS:
         # the value substituted verbatim, exactly once: never re-expanded, globbed or re-split.
         # (`~` leading the RESULT may or may not be expanded: the order of the two documented
@@ -764,6 +840,13 @@ def _plan_for(v, thorough):
     """Which (form, position, $EXPAND_ENV_VARS, delivery paths) are executed for value v.  A case
     that fails on the paths listed here is re-run on the remaining paths (see _check_value), so
     every reported failure carries the observation of all delivery paths."""
+    if isinstance(v, ML):  # part D: a literal over several physical lines
+        plan = []
+        for form in ML_FORMS:
+            plan.append((form, "mid", True, ("u", "c", "lu") if len(v) <= 2 else ("u",)))
+            for pos in ML_POSITIONS[1:] if thorough else ("cont", "contc"):
+                plan.append((form, pos, True, ("u",)))
+        return plan
     if isinstance(v, KW):  # part C: a word built around a keyword
         text = "".join(v)
         small = len(v) <= 2
@@ -831,7 +914,7 @@ def _check_value(v):
     fails = []
     evals = cases = 0
     by_path = dict.fromkeys(PATHS, 0)
-    by_kind = {"mid": 0, "E0": 0, "pos": 0, "env": 0, "kw": 0}
+    by_kind = {"mid": 0, "E0": 0, "pos": 0, "env": 0, "kw": 0, "ml": 0}
     for form, pos, e1, paths in _plan_for(v, _THOROUGH):
         if pos == "mid" and e1:
             self_check(form, _text(v))
@@ -839,7 +922,7 @@ def _check_value(v):
         if r is None:
             continue
         cases += 1
-        by_kind["kw" if isinstance(v, KW) else "env" if form in ENV_FORMS else "E0" if not e1 else ("mid" if pos == "mid" else "pos")] += 1
+        by_kind["ml" if isinstance(v, ML) else "kw" if isinstance(v, KW) else "env" if form in ENV_FORMS else "E0" if not e1 else ("mid" if pos == "mid" else "pos")] += 1
         exp = r["exp"]
         hung = any(isinstance(o, tuple) and o[0] == "hang" for o in r["obs"].values())
         if len(paths) < len(PATHS) and not hung and any(not matches(o, exp) for o in r["obs"].values()):
@@ -876,7 +959,17 @@ def attribute(fails):
         # candidates: every sub-sequence of the value (the space is closed under deletion), at the
         # same or the base position / configuration, that failed on the same form and path
         if v not in subs_cache:
-            subs_cache[v] = sorted(_subsequences(v), key=_order_key)
+            cands = _subsequences(v)
+            if isinstance(v, ML):
+                # repair transform for line sequences: besides deleting lines, replace any lines by
+                # the plain kind - what remains are the lines that matter
+                for w in list(cands):
+                    for k in range(1, len(w) + 1):
+                        for idxs in itertools.combinations(range(len(w)), k):
+                            cands.add(ML("P" if i in idxs else t for i, t in enumerate(w)))
+                subs_cache[v] = sorted(cands, key=lambda w: (len(w), sum(t != "P" for t in w), _order_key(w)))
+            else:
+                subs_cache[v] = sorted(cands, key=_order_key)
         best = None
         for w in subs_cache[v]:
             if best is not None and len(w) > len(best[2]):
@@ -885,7 +978,7 @@ def attribute(fails):
                 for e2 in dict.fromkeys((True, e1)):
                     if (form, pos2, e2, path, w) in idx:
                         cand = (pos2, e2, w)
-                        rank = (len(w), pos2 != "mid", not e2, _order_key(w))
+                        rank = (len(w), sum(t != "P" for t in w) if isinstance(w, ML) else 0, pos2 != "mid", not e2, _order_key(w))
                         if best is None or rank < best_rank:
                             best, best_rank = cand, rank
         pos, e1, v = best
@@ -923,15 +1016,17 @@ def run(ctx):
     ctx.log(f"{len(values)} values (len<={maxlen} over {len(ALPHABET)} characters + probe closure) x {len(FORMS)} forms; {len(env_values)} variable values (<={maxlen} of {len(VTOKENS)} tokens) x {len(ENV_FORMS)} uses")
     kw_values = enumerate_keyword_words(ctx.thorough)
     ctx.log(f"{len(kw_values)} words around the keywords {list(KEYWORDS)}")
+    ml_values = enumerate_ml_values(ctx.pick(3, 4))
+    ctx.log(f"{len(ml_values)} multi-line literals (1..{ctx.pick(3, 4)} lines of {len(ML_TOK)} kinds" + ("" if ctx.thorough else " + 36 four-line ones") + f") x {len(ML_FORMS)} forms")
     n_a = len(values)
-    values = values + env_values + kw_values
+    values = values + env_values + kw_values + ml_values
     res = common.pmap(_check_value, values, ctx.jobs, chunk=1, init=_init_worker, seed=ctx.seed)
     fails = [f for r in res for f in r["fails"]]
     evals = sum(r["evals"] for r in res)
     cases = sum(r["cases"] for r in res)
     nontrivial = 0
     for v, r in zip(values, res):
-        if r["cases"] and any(not (c.isascii() and c.isalnum()) for c in v):
+        if r["cases"] and ((isinstance(v, ML) and len(v) > 1) or any(not (c.isascii() and c.isalnum()) for c in v)):
             nontrivial += 1  # (for part B: c is a token; every value with a token other than `a`)
     keyed = attribute(fails)
     # simplest case first per key (the first one becomes the artefact): short value, base position, default config
@@ -941,7 +1036,7 @@ def run(ctx):
         ctx.violation(
             key=key,
             clause="argv delivered == argv written",
-            case={"form": f["form"], "pos": f["pos"], "expand_env_vars": f["e1"], "value": list(f["v"]) if isinstance(f["v"], tuple) else f["v"], "value_kind": "kw" if isinstance(f["v"], KW) else "env" if isinstance(f["v"], tuple) else "str", "paths": f["ran"], "failing_paths": f["bad"], "source": f["src"], "minimal_value": list(minimal) if isinstance(minimal, tuple) else minimal},
+            case={"form": f["form"], "pos": f["pos"], "expand_env_vars": f["e1"], "value": list(f["v"]) if isinstance(f["v"], tuple) else f["v"], "value_kind": "ml" if isinstance(f["v"], ML) else "kw" if isinstance(f["v"], KW) else "env" if isinstance(f["v"], tuple) else "str", "paths": f["ran"], "failing_paths": f["bad"], "source": f["src"], "minimal_value": list(minimal) if isinstance(minimal, tuple) else minimal},
             observed=f["obs"],
             expected=f["exp"],
             note="expected = list of arguments, each with the set of values the documentation allows",
@@ -967,13 +1062,14 @@ def run(ctx):
                 k += j + 1
                 break
     by_path = {p: sum(r["by_path"][p] for r in res) for p in PATHS}
-    by_kind = {k: sum(r["by_kind"][k] for r in res) for k in ("mid", "E0", "pos", "env", "kw")}
+    by_kind = {k: sum(r["by_kind"][k] for r in res) for k in ("mid", "E0", "pos", "env", "kw", "ml")}
     if ctx.thorough:
         plan_txt = "length<=2 and probes: middle position on all six delivery paths, $EXPAND_ENV_VARS=False and the 4 other positions on the unthreaded alias (length<=1 and the probes: on the three direct paths, $EXPAND_ENV_VARS=False also through the list alias); length 3: middle position on the unthreaded alias, plus with $EXPAND_ENV_VARS=False and (forms raw, at, atlist, macro) through the list alias when the value contains $ or ~"
     else:
         plan_txt = f"middle position on the unthreaded alias for every value; length<=1 and the probes on all six delivery paths (probes longer than 1: five, without list-alias->child), with $EXPAND_ENV_VARS=False (also through the list alias when the value contains $ or ~), and in the 4 other positions (redirect/capture positions on the three direct paths for length<=1); length-2 values containing $ or ~ also through the list alias and with $EXPAND_ENV_VARS=False; the forms {list(QUICK_TINY_ONLY)} only for length<=1 and the probes' closure"
     plan_txt += f"; part B: variable Q set to every non-empty sequence of <= {maxlen} of the tokens {list(VTOKENS)} ($W='{ENV_W}', files matching the globs present) and used as {[a for a, _, _ in ENV_FORMS.values()]} (%s = the same text written literally, expected verbatim) on the unthreaded alias directly and through the list alias (single tokens: all six paths), expected = the value substituted verbatim exactly once, 3 s alarm per execution"
     plan_txt += f"; part C: {len(kw_values)} words of <= {3 if ctx.thorough else 2} tokens over a keyword K and {list(KDECOR)} that contain K, for K in {list(KEYWORDS)}" + ("" if ctx.thorough else f" plus the three-token shapes {[''.join(t) for t in KSHAPES3]}") + f", as a plain word (bare and/or excepted) in the positions {list(KW_POSITIONS)} (bef*/aft* = directly before/after a real `and` / `&&`: two commands written, exactly two must run; otherwise exactly one) and in the forms {list(FORMS if ctx.thorough else KW_FORMS_QUICK)}"
+    plan_txt += f"; part D: literals written over 1..{ctx.pick(3, 4)} physical lines, every sequence of the line kinds {ML_LINES} (Q = a line with the other triple quote)" + ("" if ctx.thorough else " plus the 36 four-line sequences plain,x,y,plain") + f", in the forms {dict(ML_FORMS)} where Python accepts the literal (raw: without the backslash lines, see the known finding), as the middle argument (<=2 lines: also real child and list alias), with the command continued after the literal by backslash-newline, and by backslash-newline + a comment-only line" + (", and as first / last argument" if ctx.thorough else "") + "; expected = the Python value of the literal"
     ctx.coverage.update(
         evaluations=evals,
         distinct_nontrivial=nontrivial,
@@ -987,6 +1083,8 @@ def run(ctx):
         cases_other_positions=by_kind["pos"],
         cases_variable_values=by_kind["env"],
         cases_keyword_words=by_kind["kw"],
+        cases_multiline_literals=by_kind["ml"],
+        multiline_literals=len(ml_values),
         keyword_words=len(kw_values),
         variable_values=len(env_values),
         executions_threaded_alias=by_path["t"],
@@ -1014,7 +1112,7 @@ def replay(rec):
         _PROBE_SET |= _subsequences(p)
     tables.ensure_tables()
     _init_worker()
-    value = tuple(case["value"]) if case["form"] in ENV_FORMS else KW(case["value"]) if case.get("value_kind") == "kw" else case["value"]
+    value = tuple(case["value"]) if case["form"] in ENV_FORMS else KW(case["value"]) if case.get("value_kind") == "kw" else ML(case["value"]) if case.get("value_kind") == "ml" else case["value"]
     r = run_case(case["form"], case["pos"], case["expand_env_vars"], value, tuple(case["paths"]))
     if r is None:
         print("case is skipped by the generator now")
